@@ -95,11 +95,16 @@ def run_impl(c):
     timed = [False]
     trace = []
 
-    def watch(dd):
+    def watch(dd, again=False):
         r = rid[0]
         rid[0] += 1
         log.append('req:%d' % r)
-        dd.addCallbacks(lambda x: log.append('fired:%d:1' % r) and None, lambda f: log.append('fired:%d:0' % r) and None)
+
+        def told(ok):
+            log.append('fired:%d:%d' % (r, ok))
+            if again:
+                watch(pp.when_connected())      # the caller asks again from inside its callback
+        dd.addCallbacks(lambda x: told(1), lambda f: told(0))
 
     def snapshot():
         outs = list(log)
@@ -150,7 +155,7 @@ def run_impl(c):
                         pp.processExited(reason)
                         pp.processEnded(reason)
                 elif k == 'when':
-                    watch(pp.when_connected())
+                    watch(pp.when_connected(), again=(len(op) > 1 and op[1] == 'again'))
             except RuntimeError:
                 log.append('raised')
             outs = snapshot()
@@ -198,6 +203,50 @@ def driver_lines(c):
         elif k == 'when':
             lines.append('when')
     return lines
+
+
+def expand_nested(c):
+    """a `when_connected()` made from inside the callback of an earlier one (`['when', 'again']`): for the model and the
+    statement it is the request that follows the operation in which that earlier one was told.  Returns the expanded case
+    and the positions of the inserted requests (their effects are compared together with the preceding operation's)."""
+    if not any(op[0] == 'when' and len(op) > 1 and op[1] == 'again' for op in c['ops']):
+        return c, []
+    ops = [list(op) for op in c['ops']]
+    for _ in range(len(ops) + 5):
+        plain = dict(c, ops=[['when'] if op[0] in ('when', 'when!') else op for op in ops])
+        steps = spec_trace(plain)['steps']
+        rid, target = 0, None
+        for i, op in enumerate(ops):
+            if op[0] in ('when', 'when!'):
+                rid += 1
+                if op[0] == 'when' and len(op) > 1 and op[1] == 'again':
+                    told = next((j for j in range(i, len(steps)) if any(x.startswith('fired:%d:' % rid) for x in steps[j])), None)
+                    if told is None or told >= len(ops):
+                        op[1] = 'never'
+                    else:
+                        target = (i, told)
+                    break
+        if target is None:
+            if not any(op[0] == 'when' and len(op) > 1 and op[1] == 'again' for op in ops):
+                break
+            continue
+        i, told = target
+        ops[i][1] = 'done'
+        pos = told + 1
+        while pos < len(ops) and ops[pos][0] == 'when!':
+            pos += 1
+        ops.insert(pos, ['when!'])
+    inserted = [i for i, op in enumerate(ops) if op[0] == 'when!']
+    return dict(c, ops=[['when'] if op[0] in ('when', 'when!') else op for op in ops]), inserted
+
+
+def merge_inserted(steps, inserted):
+    steps = [list(x) for x in steps]
+    for p in sorted(inserted, reverse=True):
+        if 0 < p < len(steps):
+            steps[p - 1] += steps[p]
+            del steps[p]
+    return steps
 
 
 def parse_model(outs, c):
@@ -355,7 +404,7 @@ def run_cases(cases, drv, tier):
     if drv is not None:
         lines = []
         for c in cases:
-            ls = driver_lines(c)
+            ls = driver_lines(expand_nested(c)[0])
             spans.append((len(lines), len(ls)))
             lines += ls
         outs = drv.run(lines)
@@ -366,16 +415,18 @@ def run_cases(cases, drv, tier):
         if outs is not None:
             a, n = spans[k]
             m = parse_model(outs[a:a + n], c)
+            m['steps'] = merge_inserted(m['steps'], expand_nested(c)[1])
             model = {'steps': canon_steps(m['steps']), 'launch': {None: 'pending', True: 'ok', False: 'fail'}[m['rid0']], 'user_dir_kept': True}
             corr_ok = view == model
-        sp = spec_trace(c)
-        spec = {'steps': canon_steps(sp['steps']), 'launch': sp['launch'], 'user_dir_kept': True}
+        ec, inserted = expand_nested(c)
+        sp = spec_trace(ec)
+        spec = {'steps': canon_steps(merge_inserted(sp['steps'], inserted)), 'launch': sp['launch'], 'user_dir_kept': True}
         prop_ok = view == spec
         kinds = sorted({op[0] for op in c['ops']})
         reached = any(x.startswith('cmd:') for s in im['steps'] for x in s)
         decided = any(x in ('term', 'lose') or x.startswith(('fired', 'rmtree')) for s in im['steps'] for x in s) or im['launch'] != 'pending'
         res.append(Result(c, view, model, spec, corr_ok=corr_ok, prop_ok=prop_ok, in_h=True, nontrivial=(reached and decided),
-                          tags=kinds + ['launch=' + im['launch'], 'user-dir-fresh' if c['user_dir'] == 'fresh' else 'user-dir' if c['user_dir'] else 'temp-dir']))
+                          tags=kinds + (['when-from-callback'] if inserted else []) + ['launch=' + im['launch'], 'user-dir-fresh' if c['user_dir'] == 'fresh' else 'user-dir' if c['user_dir'] else 'temp-dir']))
     return res
 
 
@@ -436,7 +487,7 @@ def gen_cases(rng, tier):
             elif r < 0.6:
                 extra.append(['exit', rng.choice([0, 1, None])])
             elif r < 0.75:
-                extra.append(['when'])
+                extra.append(['when', 'again'] if rng.random() < 0.4 else ['when'])
             elif r < 0.82:
                 extra.append(['err', 'warn\n'])
             elif r < 0.92:
@@ -452,7 +503,7 @@ def gen_cases(rng, tier):
         # late inputs that would produce an outcome again, each followed by a caller asking anew: the answer must be the first outcome
         for _ in range(rng.choice([0, 1, 1, 2])):
             seq.append(rng.choice([['exit', rng.choice([0, 1, None])], ['timeout'], ['prog', 0, 100]]))
-            seq.append(['when'])
+            seq.append(['when', 'again'] if rng.random() < 0.4 else ['when'])
         yield within_h({'user_dir': rng.choice([False, False, False, True, 'fresh']), 'timeout': rng.random() < 0.8, 'kill': rng.random() < 0.8, 'ops': seq})
     if tier != 'quick':
         multiset = [['out', LINE], ['conn', 0, True], ['ack', 0, True], ['ack', 0, True], ['prog', 0, 100], ['timeout'], ['exit', 0], ['when']]
